@@ -889,6 +889,12 @@ func (g *gen) piece(depth int) {
 			g.tag("<%", "}", "%>")
 		case 4:
 			g.tag("<%=", "tm", "%>")
+			if g.nest == 0 && g.cur.name == "" && g.pct("timefmt", 30) {
+				// a time printed before and after the format is rebound
+				g.feat("print_then_mutate")
+				g.tag("<%", `let TIME_FORMAT = "2006-01"`, "%>")
+				g.tag("<%=", "tm", "%>")
+			}
 		case 5:
 			g.tag("<%=", "stg", "%>")
 		case 6:
@@ -1193,10 +1199,24 @@ func (g *gen) arrayPiece(depth int) {
 	g.tag("<%", "let "+name+" = ["+g.expr(kInt, 1, "array-element")+", "+g.expr(kInt, 1, "array-element")+", "+g.expr(kInt, 1, "array-element")+"]", "%>")
 	g.scope = append(g.scope, variable{name: name, k: kArr, elem: kInt, loc: true})
 	g.nl()
-	if g.pct("idxasg", 60) {
+	printed := g.pct("printarr", 35)
+	if printed {
+		// the array itself is printed (not a copy of it), then mutated, then printed again: what an output
+		// tag emits is the value at the time the tag is evaluated
+		g.feat("print_then_mutate")
+		g.frames = 0
+		g.tag("<%=", name, "%>")
+		g.nl()
+	}
+	if printed || g.pct("idxasg", 60) {
 		g.feat("index_assign")
 		g.frames = 0
 		g.tag("<%", name+"["+fmt.Sprint(g.intn("ix", 0, 2))+"] = "+g.expr(kInt, 2, "index-assign-value"), "%>")
+		g.nl()
+	}
+	if printed {
+		g.frames = 0
+		g.tag("<%=", name, "%>")
 		g.nl()
 	}
 	g.frames = 0
